@@ -1505,5 +1505,9 @@ def solve_vle_vapor_mol_shgo(
     args = (mol, T, f_gamma, gamma_args, P, pcf_Psats, f_phi, phi_args)
     bounds = np.zeros([mol.size, 2])
     bounds[:, 1] = mol
-    result = shgo(vle_objective_function, bounds, args, options=shgo_options)
+    # The default (simplicial) sampling only evaluates the corners of the bounds
+    # (all liquid or all vapor), where the local search then stops; sample
+    # the interior so that the two-phase minimum is found.
+    result = shgo(vle_objective_function, bounds, args, options=shgo_options,
+                  n=64, sampling_method='sobol')
     return result.x
